@@ -264,7 +264,8 @@ def _p_values_worker(
         qdiff_th=0.7,
         qdiff_min_th=0.1,
         log2_fold_th=1.0,
-        log2_fold_min_th=0.8):
+        log2_fold_min_th=0.8,
+        n_cells_min=2):
     """
     Score and rank differentiallly expressed genes for
     a subset of taxonomic siblings. Write the results to
@@ -303,6 +304,11 @@ def _p_values_worker(
         Minimum thresholds below which genes will not be
         considered marker genes. See Notes under
         diffexp.scores.score_differential_genes.
+
+    n_cells_min:
+        If either cluster of a pair has fewer cells than this,
+        no gene is a marker for that pair (as in
+        diffexp.scores.score_differential_genes).
     """
 
     n_genes = len(cluster_stats[list(cluster_stats.keys())[0]]['mean'])
@@ -334,6 +340,10 @@ def _p_values_worker(
         level = sibling_pair[0]
         node_1 = f'{level}/{sibling_pair[1]}'
         node_2 = f'{level}/{sibling_pair[2]}'
+
+        if cluster_stats[node_1]['n_cells'] < n_cells_min \
+                or cluster_stats[node_2]['n_cells'] < n_cells_min:
+            continue
 
         p_values = diffexp_p_values_from_stats(
             node_1=node_1,
